@@ -73,12 +73,13 @@ def canon(v):
     """strict, order-insensitive text of a value: 1, 1.0 and True differ; dict/set order does not matter"""
     t = type(v).__name__
     if t == "ndarray":
-        # dtype (byte order, fields, offsets, units), shape, strides and raw bytes: two arrays are the same
-        # argument only if all of them agree
-        return "ndarray:%s:%r:%r:%r:%s" % (v.dtype.str, v.dtype.descr if v.dtype.names else v.dtype.str,
-                                           (v.dtype.fields and sorted((n, str(f[0]), f[1]) for n, f in
-                                                                      v.dtype.fields.items())),
-                                           (v.shape, v.strides), v.tobytes().hex())
+        # dtype (fields, offsets, units), shape and element VALUES.  Byte order is normalised: joblib deliberately
+        # returns cached arrays in native byte order (numpy_pickle _ensure_native_byte_order), values unchanged.
+        w = v.astype(v.dtype.newbyteorder("="))
+        return "ndarray:%r:%r:%r:%s" % (w.dtype.descr if w.dtype.names else w.dtype.str,
+                                        (w.dtype.fields and sorted((n, str(f[0]), f[1]) for n, f in
+                                                                   w.dtype.fields.items())),
+                                        w.shape, w.tobytes().hex())
     if isinstance(v, (tuple, list)):
         return "%s(%s)" % (t, ",".join(canon(e) for e in v))
     if isinstance(v, dict):
